@@ -459,6 +459,56 @@ Section Lookups.
   Definition index_increasing : Prop :=
     forall i j a b, i < j -> nthN all i = Some a -> nthN all j = Some b -> index_of a < index_of b.
 
+  Definition keeps_contract_on (A : Type) (bs : (A -> comparison) -> list A -> bres) : Prop :=
+    forall cmp l, partitioned cmp l -> bsearch_valid cmp l (bs cmp l).
+  Lemma std_keeps_contract_on A : keeps_contract_on A (@std_bsearch A).
+  Proof. intros cmp l Hp. apply std_bsearch_valid. exact Hp. Qed.
+
+  (* msg.index ascending along all_msgs makes the comparison with a wanted index a partition *)
+  Lemma index_partitioned idx : index_increasing -> partitioned (fun m : M => N.compare (index_of m) idx) all.
+  Proof.
+    intros Hinc i j a b Hij Ha Hb.
+    assert (Hab : index_of a <= index_of b).
+    { destruct (N.eq_dec i j) as [->|Hn]; [rewrite Ha in Hb; inversion Hb; lia|].
+      assert (Hlt : i < j) by lia. pose proof (Hinc i j a b Hlt Ha Hb). lia. }
+    destruct (N.compare_spec (index_of a) idx), (N.compare_spec (index_of b) idx); cbn; try reflexivity; lia.
+  Qed.
+
+  (* what the first search of the file-order branches finds, for any result the contract allows *)
+  Lemma index_search_spec bsA idx : keeps_contract_on M bsA -> index_increasing ->
+    match bsA (fun m => N.compare (index_of m) idx) all with
+    | BOk ai => exists m, nthN all ai = Some m /\ index_of m = idx
+    | BErr _ => forall j m, nthN all j = Some m -> index_of m <> idx
+    end.
+  Proof.
+    intros HA Hinc. pose proof (HA _ all (index_partitioned idx Hinc)) as Hv.
+    destruct (bsA (fun m => N.compare (index_of m) idx) all) as [ai|i]; cbn [bsearch_valid] in Hv.
+    - destruct Hv as [m [Hm Hc]]. apply N.compare_eq in Hc. eauto.
+    - destruct Hv as [Hi [Hlo Hhi]]. intros j m Hm He.
+      destruct (N.lt_ge_cases j i) as [Hj|Hj].
+      + pose proof (Hlo j m Hj Hm) as Hc. cbv beta in Hc. rewrite He, N.compare_refl in Hc. discriminate.
+      + pose proof (Hhi j m Hj Hm) as Hc. cbv beta in Hc. rewrite He, N.compare_refl in Hc. discriminate.
+  Qed.
+
+  (* branches "file order": relies on msg.index ascending along all_msgs (first search) and, with filters, on
+     filtered_msgs ascending (second search; part of the index invariant [inv]) *)
+  Theorem lookup_index_with_first_not_before bsA bsF idx :
+    keeps_contract_on M bsA -> keeps_contract bsF -> index_increasing ->
+    match lookup_index_with index_of bsA bsF all s idx with
+    | Some p =>
+        exists ai m, nthN all ai = Some m /\ index_of m = idx /\
+          p <= slen /\
+          (forall q a, q < p -> all_pos q = Some a -> a < ai) /\
+          (forall q a, p <= q -> all_pos q = Some a -> ai <= a)
+    | None => forall j m, nthN all j = Some m -> index_of m <> idx
+    end.
+  Proof.
+    intros HA HF Hinc. unfold lookup_index_with. pose proof (index_search_spec bsA idx HA Hinc) as Hs.
+    destruct (bsA (fun m => N.compare (index_of m) idx) all) as [ai|i]; [|exact Hs].
+    destruct Hs as [m [Hm He]]. exists ai, m. split; [exact Hm|]. split; [exact He|].
+    apply (stream_pos_first_not_before _ ai HF). apply nthN_some_lt in Hm. lia.
+  Qed.
+
   Theorem lookup_index_first_not_before idx : index_increasing ->
     match lookup_index index_of all s idx with
     | Some p =>
@@ -468,24 +518,20 @@ Section Lookups.
           (forall q a, p <= q -> all_pos q = Some a -> ai <= a)
     | None => forall j m, nthN all j = Some m -> index_of m <> idx
     end.
+  Proof. exact (lookup_index_with_first_not_before _ _ idx (std_keeps_contract_on M) std_keeps_contract). Qed.
+
+  (* branch "file order, no filters": only msg.index ascending along all_msgs is used; the answer is the position
+     of the message itself *)
+  Theorem lookup_index_unfiltered_exact bsA bsF idx :
+    keeps_contract_on M bsA -> index_increasing -> s_filters_active s = false ->
+    match lookup_index_with index_of bsA bsF all s idx with
+    | Some p => exists m, nthN all p = Some m /\ index_of m = idx
+    | None => forall j m, nthN all j = Some m -> index_of m <> idx
+    end.
   Proof.
-    intros Hinc. unfold lookup_index.
-    set (cmp := fun m : M => N.compare (index_of m) idx).
-    assert (Hp : partitioned cmp all).
-    { intros i j a b Hij Ha Hb. unfold cmp.
-      assert (Hab : index_of a <= index_of b).
-      { destruct (N.eq_dec i j) as [->|Hn]; [rewrite Ha in Hb; inversion Hb; lia|].
-        assert (Hlt : i < j) by lia. pose proof (Hinc i j a b Hlt Ha Hb). lia. }
-      destruct (N.compare_spec (index_of a) idx), (N.compare_spec (index_of b) idx); cbn; try reflexivity; lia. }
-    pose proof (std_bsearch_valid cmp all Hp) as Hv.
-    destruct (std_bsearch cmp all) as [ai|i]; cbn [bsearch_valid] in Hv.
-    - destruct Hv as [m [Hm Hc]]. unfold cmp in Hc. apply N.compare_eq in Hc.
-      exists ai, m. split; [exact Hm|]. split; [exact Hc|].
-      apply (stream_pos_first_not_before _ ai std_keeps_contract). apply nthN_some_lt in Hm. lia.
-    - destruct Hv as [Hi [Hlo Hhi]]. intros j m Hm He.
-      destruct (N.lt_ge_cases j i) as [Hj|Hj].
-      + pose proof (Hlo j m Hj Hm) as Hc. unfold cmp in Hc. rewrite He, N.compare_refl in Hc. discriminate.
-      + pose proof (Hhi j m Hj Hm) as Hc. unfold cmp in Hc. rewrite He, N.compare_refl in Hc. discriminate.
+    intros HA Hinc Ea. unfold lookup_index_with, stream_pos_with. rewrite Ea.
+    pose proof (index_search_spec bsA idx HA Hinc) as Hs.
+    destruct (bsA (fun m => N.compare (index_of m) idx) all); exact Hs.
   Qed.
 
   (* --- index lookup, file sorted by time: the first message with that index is found linearly --- *)
@@ -515,6 +561,26 @@ Section Lookups.
           -- replace j with ((j - 1) + 1) in Hm' by lia. rewrite nthN_cons_succ in Hm'. exact (IH (j - 1) m' Hm').
   Qed.
 
+  (* branch "sorted by time, filters": no order of msg.index or of the times is used (linear search); only
+     filtered_msgs ascending (from [inv]) for the binary search of the found position *)
+  Theorem lookup_index_sorted_with_first_not_before bsF idx : keeps_contract bsF ->
+    match lookup_index_sorted_with index_of bsF all s idx with
+    | Some p =>
+        exists ai m, nthN all ai = Some m /\ index_of m = idx /\
+          (forall j m', j < ai -> nthN all j = Some m' -> index_of m' <> idx) /\
+          p <= slen /\
+          (forall q a, q < p -> all_pos q = Some a -> a < ai) /\
+          (forall q a, p <= q -> all_pos q = Some a -> ai <= a)
+    | None => forall j m, nthN all j = Some m -> index_of m <> idx
+    end.
+  Proof.
+    intros HF. unfold lookup_index_sorted_with. pose proof (find_index_spec idx all 0) as Hf.
+    destruct (find_index index_of all idx 0) as [[ai m]|]; [|exact Hf].
+    destruct Hf as [_ [H2 [H3 H4]]]. rewrite N.sub_0_r in *.
+    exists ai, m. split; [exact H2|]. split; [exact H3|]. split; [exact H4|].
+    apply (stream_pos_first_not_before _ ai HF). apply nthN_some_lt in H2. lia.
+  Qed.
+
   Theorem lookup_index_sorted_first_not_before idx :
     match lookup_index_sorted index_of all s idx with
     | Some p =>
@@ -525,12 +591,21 @@ Section Lookups.
           (forall q a, p <= q -> all_pos q = Some a -> ai <= a)
     | None => forall j m, nthN all j = Some m -> index_of m <> idx
     end.
+  Proof. exact (lookup_index_sorted_with_first_not_before _ idx std_keeps_contract). Qed.
+
+  (* branch "sorted by time, no filters": nothing is assumed at all; the answer is the position of the first
+     message with that index *)
+  Theorem lookup_index_sorted_unfiltered_exact bsF idx : s_filters_active s = false ->
+    match lookup_index_sorted_with index_of bsF all s idx with
+    | Some p => exists m, nthN all p = Some m /\ index_of m = idx /\
+                          (forall j m', j < p -> nthN all j = Some m' -> index_of m' <> idx)
+    | None => forall j m, nthN all j = Some m -> index_of m <> idx
+    end.
   Proof.
-    unfold lookup_index_sorted. pose proof (find_index_spec idx all 0) as Hf.
+    intros Ea. unfold lookup_index_sorted_with, stream_pos_with. rewrite Ea.
+    pose proof (find_index_spec idx all 0) as Hf.
     destruct (find_index index_of all idx 0) as [[ai m]|]; [|exact Hf].
-    destruct Hf as [_ [H2 [H3 H4]]]. rewrite N.sub_0_r in *.
-    exists ai, m. split; [exact H2|]. split; [exact H3|]. split; [exact H4|].
-    apply (stream_pos_first_not_before _ ai std_keeps_contract). apply nthN_some_lt in H2. lia.
+    destruct Hf as [_ [H2 [H3 H4]]]. rewrite N.sub_0_r in *. eauto.
   Qed.
 End Lookups.
 
@@ -552,4 +627,14 @@ Section LookupRefuted.
   Lemma lookup_index_sorted_prefix_returned_last_of_equal :
     lookup_index_sorted_prefix fst snd t_all t_sf 1 = Some 2 /\ lookup_index_sorted snd t_all t_sf 1 = Some 0.
   Proof. split; vm_compute; reflexivity. Qed.
+  (* searching a filtered stream of a time-sorted file by msg.index (instead of by the all_msgs position):
+     all_msgs in time order has the indices 1,0,3,2,5,4; the stream holds the indices 0 and 3 (positions 1, 2);
+     the first stream message not before index 1 (position 0) is stream position 0, not 1 *)
+  Definition r_all : list (N * N) := [(10, 1); (11, 0); (12, 3); (13, 2); (14, 5); (15, 4)].   (* (time, index) *)
+  Definition r_fs : fset (N * N) := {| f_pos := [fun m => snd m mod 3 =? 0]; f_neg := []; f_ev := [] |}.
+  Definition r_s : sctx (N * N) := set_progress (new_ctx 1 true true r_fs 0 10) [1; 2] 6.
+  Lemma search_by_index_in_time_order_is_wrong :
+    lookup_index_sorted_by_index snd r_all r_s 1 = Some 1 /\ lookup_index_sorted snd r_all r_s 1 = Some 0 /\
+    lookup_index_sorted_by_index snd r_all r_s 2 = Some 1 /\ lookup_index_sorted snd r_all r_s 2 = Some 2.
+  Proof. repeat split; vm_compute; reflexivity. Qed.
 End LookupRefuted.
